@@ -9421,6 +9421,9 @@ impl<'a> Parser<'a> {
                 schema_name: Some(schema_name),
             })
         } else {
+            // only `token1` belongs to the table name: put the two look-ahead tokens back
+            self.prev_token();
+            self.prev_token();
             match token1.token {
                 Token::Word(w) => {
                     table_name = w.value;
